@@ -98,20 +98,26 @@ func cmdForEachDefault(p *lang.Process, steps int, additional []string) error {
 		return err
 	}
 
+	if steps < 0 {
+		return fmt.Errorf("%s cannot be a negative number: %d", foreachStep, steps)
+	}
+
 	var (
 		step      int
 		iteration int
-		slice     = make([]any, steps)
+		slice     []any
 	)
 
 	err = p.Stdin.ReadArrayWithType(p.Context, func(varValue any, dataType string) {
 		if steps > 0 {
 			varValue, _ = marshal(p, varValue, dataType)
-			slice[step] = varValue
+			// grown as elements arrive: the step size is user input and can be huge
+			slice = append(slice[:step], varValue)
 			step++
 			if step == steps {
 				varValue = slice
 				dataType = types.Json
+				slice = make([]any, 0, steps)
 				step = 0
 			} else {
 				return
